@@ -88,6 +88,7 @@ class Program:
         self.funcs = {}
         self.imports = {}      # module -> {local name: dotted}
         self.module_globals = {}   # module -> {name: value ast}
+        self.module_funcs = {}     # module -> {source name: Func}
         self.excluded = []
         for fn in sorted(os.listdir(self.pkgdir)):
             p = os.path.join(self.pkgdir, fn)
@@ -149,6 +150,7 @@ class Program:
                 f = Func(mod, None, st)
                 f.file = relfile
                 self.funcs[f.qualname] = f
+                self.module_funcs.setdefault(mod, {})[st.name] = f
             elif isinstance(st, ast.Assign):
                 for t in st.targets:
                     if isinstance(t, ast.Name):
@@ -207,7 +209,12 @@ class Program:
             cm['intl'] = [n for n in cm['intl'] if n not in unstable]
             for x in extra:
                 fx = dict(fps[x])
-                if fx['cls'] != cm['cls'] or fx['static'] != cm['static']:
+                moved = (fx['cls'] is None and cm['static'] and
+                         self.funcs[x].module ==
+                         self.classes[cm['cls']].module
+                         if cm['cls'] in self.classes else False)
+                if not moved and (fx['cls'] != cm['cls'] or
+                                  fx['static'] != cm['static']):
                     continue
                 fx['intl'] = [n for n in fx['intl'] if n not in unstable]
                 pairs.append((_similarity(cm, fx), m, x))
@@ -228,6 +235,11 @@ class Program:
                 fobj.qualname = m
                 fobj.source_name = fobj.name
                 fobj.name = m.split('.')[-1]
+                if fobj.cls is None and '.' in m:
+                    # a static method that became a module-level function:
+                    # it still answers to its class-qualified name
+                    fobj.cls = m.split('.')[0]
+                    fobj.is_static = True
                 self.funcs[m] = fobj
 
     def parent(self, node):
@@ -285,6 +297,8 @@ class Program:
         elif root in self.classes and (
                 module is None or self.classes[root].module == module):
             base = 'pkg:' + root
+        elif root in self.module_funcs.get(module, {}):
+            base = 'pkgf:%s:%s' % (module, root)
         elif root in self.module_globals.get(module, {}):
             base = 'glob:' + root
         elif hasattr(builtins, root):
@@ -572,6 +586,10 @@ class Program:
         return ['unknown:expr']
 
     def _resolve_dotted(self, d):
+        if d.startswith('pkgf:'):
+            _, mod, name = d.split(':', 2)
+            f = self.module_funcs.get(mod, {}).get(name.split('.')[0])
+            return [f] if f is not None else ['unknown:' + d]
         if d.startswith('pkg:'):
             parts = d[4:].split('.')
             if parts[0] in self.classes:
@@ -683,7 +701,9 @@ def fingerprint(prog, f):
             fn = n.func
             d = prog.dotted(fn, f) if isinstance(
                 fn, (ast.Name, ast.Attribute)) else None
-            if d and not d.startswith(('pkg:', 'glob:')):
+            if d and d.startswith('pkgf:'):
+                intl.append(d.split(':')[-1])
+            elif d and not d.startswith(('pkg:', 'glob:')):
                 ext.append(d)
             elif isinstance(fn, ast.Attribute):
                 intl.append(fn.attr)
